@@ -44,9 +44,12 @@ type C06Plan struct {
 func init() {
 	Register(&Profile{
 		ID: "C06", Prop: "C06",
-		Rule: "field extremes through `wrgl commit` (message / author name / email of 0, 1, 65535, 65536, 70000 bytes; node clock up to year 2292, before 1970, zone offsets -12h..+14h incl. half hours; rows whose encoding crosses 64 KiB; blocks of 1..255 rows) and the packfile length header over varint boundaries, 32-bit and sampled 64-bit lengths; oracle: error at write time with the branch untouched, or the commit reads back equal; the C06 write monitor checks key = hash, decode and re-encode on every stored object; non-trivial = a field at or over a limit or a clock/zone extreme; distinct by plan hash",
+		Rule: "field extremes through `wrgl commit` (message / author name / email of 0, 1, 65535, 65536, 70000 bytes; node clock up to year 2292, before 1970, zone offsets -12h..+14h incl. half hours; rows whose encoding crosses 64 KiB; blocks of 1..255 rows) and the packfile length header over varint boundaries, 32-bit and sampled 64-bit lengths; oracle: error at write time with the branch untouched, or the commit reads back equal; block indices computed from stored block bytes vs from decoded rows for every order of 0-4 key columns (identical bytes, every row found under its key hash); the C06 write monitor checks key = hash, decode and re-encode on every stored object; non-trivial = a field at or over a limit or a clock/zone extreme; distinct by plan hash",
 		Gen: func(seed uint64, tier string) any {
 			r := NewRand(seed)
+			if r.Chance(0.1) {
+				return genC06BlockIndex(r.Sub("blockindex"))
+			}
 			if r.Chance(0.08) {
 				// what the profiler computes for columns holding "NaN" / "inf" / huge cells
 				vals := []string{"", "0", "-0", "1", "-1.5", "NaN", "+Inf", "-Inf", "1e308", "5e-324", "1.7976931348623157e308", "123456789.123456789"}
@@ -125,6 +128,10 @@ func execC06(t *testing.T, raw json.RawMessage, res *Result) {
 	}
 	if p.Kind == "profile" {
 		execC06Profile(&p, res)
+		return
+	}
+	if p.Kind == "blockindex" {
+		execC06BlockIndex(&p, res)
 		return
 	}
 	if p.Kind == "header" {
